@@ -54,7 +54,7 @@ Theorem C05_limit_base_is_previous_block_total : forall g bs b c1 txs,
   let w := run_world (init_world g) bs in
   w_halted w = None -> 0 < height (w_chain w) ->
   begin_block (with_clock (w_chain w) (height (w_chain w) + 1) (now (w_chain w) + b_dt b))
-              (match c_prev (w_comet w) with Some vs => sorted_votes vs | None => [] end) (b_absent b) = inl c1 ->
+              (match c_prev (w_comet w) with Some vs => sorted_votes vs | None => [] end) (b_absent b) (b_evidence b) = inl c1 ->
   cached_power (poa (fst (deliver_txs c1 txs))) = tsum (last_pow (stk (w_chain w))) /\
   last_pow (stk (fst (deliver_txs c1 txs))) = last_pow (stk (w_chain w)).
 Proof. exact cached_total_is_previous_set_total. Qed.
